@@ -19,3 +19,8 @@ Inductive op :=
 | OStr (str : list N) (pos : nat) (n : N) (zero one : N)   (* cur = bitset(str, pos, n, zero, one) *)
 | OSwap                                   (* exchange the roles of the two registers *)
 | OTest (pos : nat).                      (* queries: test(pos), const [](pos), bool(cur[pos]), ~cur[pos] *)
+
+(* what is observed after every step of a history: to_string('0','1'), count, all, any, none,
+   to_ullong/to_ulong (None when Bits > 64: not instantiable in etl), current == other *)
+Record obs := { o_string : list N; o_count : nat; o_all : bool; o_any : bool; o_none : bool;
+                o_ullong : option N; o_eq : bool }.
